@@ -207,10 +207,52 @@ func c18Units(ctx *core.Ctx) []core.Unit {
 			}
 		}})
 	}
+	us = append(us, core.Unit{Name: "DivideOnDomain: all index sequences of length 5 over 3 indices on one PrecomputedWeights (and on a fresh one)", Run: func(ctx *core.Ctx, r *core.Result) {
+		needRef()
+		polys := polyAlphabet(ctx.Seed)
+		f := polys[12]
+		fv := frsFromBig(f.V)
+		idx := []int{3, 200, 77}
+		want := map[int]string{}
+		for _, k := range idx {
+			want[k] = frsDigest(frsFromBig(ref.QuotientEval(f.V, k)))
+		}
+		for _, fresh := range []bool{false, true} {
+			pw := conf().PrecomputedWeights
+			for seq := 0; seq < 243; seq++ {
+				if fresh {
+					pw = ipa.NewPrecomputedWeights()
+				}
+				hist := ""
+				for step, s := 0, seq; step < 5; step, s = step+1, s/3 {
+					k := idx[s%3]
+					hist += fmt.Sprint(k, " ")
+					var q []fr.Element
+					in := fmt.Sprintf("index history %s(fresh weights: %v), f=%s", hist, fresh, f.Name)
+					if !guard(r, "c18.panic", "ipa.PrecomputedWeights.DivideOnDomain", in, func() { q = pw.DivideOnDomain(uint8(k), fv) }) {
+						break
+					}
+					r.Evals++
+					r.Nontrivial++
+					if frsDigest(q) != want[k] {
+						vio(r, "c18.divide", "ipa.PrecomputedWeights.DivideOnDomain", in, "the quotient (f - f(k))/(X - k) on the domain, as for any other history", "a different vector")
+						break
+					}
+				}
+			}
+		}
+	}})
 	us = append(us, core.Unit{Name: "ComputeBarycentricCoefficients outside the domain", Run: func(ctx *core.Ctx, r *core.Result) {
 		needRef()
 		pw := conf().PrecomputedWeights
 		zs := []*big.Int{bi(256), bi(257), bi(258), bi(511), bi(65536), pow2(64), new(big.Int).Sub(bigR, bi(1)), new(big.Int).Sub(bigR, bi(2)), new(big.Int).Rsh(bigR, 1)}
+		// points whose Montgomery representation is a small integer (k * 2^-256 mod r): outside the domain,
+		// although their raw limbs look like the domain points k
+		rinv := new(big.Int).ModInverse(pow2(256), bigR)
+		for _, k := range []int64{1, 2, 7, 255, 256, 1000} {
+			zs = append(zs, new(big.Int).Mod(new(big.Int).Mul(rinv, bi(k)), bigR))
+		}
+		defer setCPU(0)
 		for i := 0; i < 4; i++ {
 			z := prfR(ctx.Seed, "c18z", i)
 			if z.Cmp(bi(255)) > 0 {
@@ -224,6 +266,9 @@ func c18Units(ctx *core.Ctx) []core.Unit {
 		}
 		for zi, z := range zs {
 			in := "z=" + z.Text(16)
+			if cpu := []int{0, 1, 2, 3, 16}[zi%5]; setCPU(cpu) && cpu != 0 {
+				in += fmt.Sprintf(" NumCPU/GOMAXPROCS=%d", cpu)
+			}
 			if zi%2 == 1 {
 				// earlier, unrelated use of the helpers the evaluation is built on: batch inversions of 256 and
 				// 300 values with zeros at every other position / at the ends (what they leave behind must not matter)
